@@ -153,8 +153,9 @@ func ReassembleTOAST(chunks []TOASTChunk, valueID uint32, ptr *TOASTPointer) []b
 		return nil
 	}
 
-	// Sort by sequence number
-	sort.Slice(valueChunks, func(i, j int) bool {
+	// Sort by sequence number; chunks with equal sequence numbers keep their stored order
+	// (sort.Slice leaves the order among equals unspecified)
+	sort.SliceStable(valueChunks, func(i, j int) bool {
 		return valueChunks[i].ChunkSeq < valueChunks[j].ChunkSeq
 	})
 
